@@ -285,7 +285,7 @@ class Symb:
         return sp.Integer(1)
       if d in ('jax.numpy.reshape', 'numpy.reshape') and len(args) == 2:
         return self.f('reshape', self.conv(args[0]), self._shape_arg([args[1]]))
-      if d in ('jax.numpy.expand_dims', 'numpy.expand_dims') and len(args) == 2 and args[1].op == 'const' and isinstance(cval(args[1]), int) and cval(args[1]) >= 0:
+      if d in ('jax.numpy.expand_dims', 'numpy.expand_dims') and len(args) == 2 and args[1].op == 'const' and isinstance(cval(args[1]), int) and not isinstance(cval(args[1]), bool):
         return self.f('expand_dims', self.conv(args[0]), sp.Integer(cval(args[1])))
       if d in ('jax.numpy.equal', 'jax.numpy.not_equal') and len(args) == 2:
         return self.f('eq' if d.endswith('.equal') else 'ne', *sorted([self.conv(args[0]), self.conv(args[1])], key=sp.default_sort_key))
@@ -354,11 +354,14 @@ def _newaxis_position(idx):
     return None
   k = news[0]
   before, after = items[:k], items[k + 1:]
-  if not all(x.op == 'slice' and _is_full(x) for x in before):
-    return None          # an ellipsis before the new axis makes the position depend on the rank
   if not all(_is_full(x) for x in after):
     return None
-  return k
+  if all(x.op == 'slice' and _is_full(x) for x in before):
+    return k
+  # x[..., None, :]: counted from the end (an ellipsis before the new axis): position -(len(after) + 1)
+  if len(before) == 1 and before[0].op == 'const' and cval(before[0]) is Ellipsis and all(x.op == 'slice' for x in after):
+    return -(len(after) + 1)
+  return None
 
 
 def _opname(o):
